@@ -107,17 +107,21 @@ pub extern "C" fn cs_fill8_t2() {
 #[no_mangle]
 pub extern "C" fn cs_r_load() {
     let g = a().load();
+    merge();
     check_payload(&g, 1);
     cover(11);
     drop(g);
+    merge();
 }
 
 /// load_full, look, drop
 #[no_mangle]
 pub extern "C" fn cs_r_load_full() {
     let v = a().load_full();
+    merge();
     check_payload(&v, 2);
     drop(v);
+    merge();
 }
 
 /// two loads by one thread never move backwards (writers store objects in increasing index
@@ -126,19 +130,25 @@ pub extern "C" fn cs_r_load_full() {
 pub extern "C" fn cs_r_load2() {
     let d0 = DONE.load(SeqCst);
     let g1 = a().load();
+    merge();
     let s1 = STARTED.load(SeqCst);
     let i1 = check_payload(&g1, 3);
     vassert(i1 >= d0 && i1 <= s1, 4);
+    merge();
     let d1 = DONE.load(SeqCst);
     let g2 = a().load();
+    merge();
     let s2 = STARTED.load(SeqCst);
     let i2 = check_payload(&g2, 5);
     vassert(i2 >= i1, 6);
     vassert(i2 >= d1 && i2 <= s2, 7);
     // the first guard still denotes the same, live value
     vassert(check_payload(&g1, 8) == i1, 9);
+    merge();
     drop(g1);
+    merge();
     drop(g2);
+    merge();
 }
 
 /// the same with the fallback path (prologue filled the fast slots): one load
@@ -146,24 +156,30 @@ pub extern "C" fn cs_r_load2() {
 pub extern "C" fn cs_r_load_rt() {
     let d0 = DONE.load(SeqCst);
     let g1 = a().load();
+    merge();
     let s1 = STARTED.load(SeqCst);
     let i1 = check_payload(&g1, 3);
     vassert(i1 >= d0 && i1 <= s1, 4);
     cover(12);
+    merge();
     drop(g1);
+    merge();
 }
 
 /// thread 1 gives back the 8 parked guards (after its body loaded through the fallback)
 #[no_mangle]
 pub extern "C" fn cs_r_fallback_then_release() {
     let g = a().load();
+    merge();
     check_payload(&g, 1);
     drop(g);
+    merge();
     for i in 0..8 {
         if let Some(h) = cx().held1[i].take() {
             check_payload(&h, 10);
             drop(h);
         }
+        merge();
     }
 }
 
@@ -171,7 +187,9 @@ pub extern "C" fn cs_r_fallback_then_release() {
 #[no_mangle]
 pub extern "C" fn cs_r_into_inner_keep() {
     let g = a().load();
+    merge();
     let v = Guard::into_inner(g);
+    merge();
     check_payload(&v, 1);
     let i = v.idx();
     cx().kept[i] = Some(v);
@@ -185,6 +203,7 @@ pub extern "C" fn cs_w_store1() {
     let v = spare(1);
     STARTED.store(1, SeqCst);
     a().store(v);
+    merge();
     DONE.store(1, SeqCst);
 }
 
@@ -194,10 +213,12 @@ pub extern "C" fn cs_w_store12() {
     let v = spare(1);
     STARTED.store(1, SeqCst);
     a().store(v);
+    merge();
     DONE.store(1, SeqCst);
     let v = spare(2);
     STARTED.store(2, SeqCst);
     a().store(v);
+    merge();
     DONE.store(2, SeqCst);
 }
 
@@ -206,6 +227,7 @@ pub extern "C" fn cs_w_store12() {
 pub extern "C" fn cs_w_swap1() {
     let v = spare(1);
     let old = a().swap(v);
+    merge();
     check_payload(&old, 20);
     mark(1, old.idx() as u64);
     let i = old.idx();
@@ -217,6 +239,7 @@ pub extern "C" fn cs_w_swap1() {
 pub extern "C" fn cs_w_swap2() {
     let v = spare(2);
     let old = a().swap(v);
+    merge();
     check_payload(&old, 21);
     let i = old.idx();
     cx().kept[i] = Some(old);
@@ -227,6 +250,7 @@ pub extern "C" fn cs_w_swap2() {
 pub extern "C" fn cs_w_store_b3() {
     let v = spare(3);
     b().store(v);
+    merge();
 }
 
 // ------------------------------------------------------------------ finals
@@ -260,8 +284,10 @@ fn count_of_gated(i: usize) -> usize {
 pub extern "C" fn cs_final1() {
     vassert(slots_all_empty(), 40);
     let g = a().load();
+    merge();
     let i = check_payload(&g, 41);
     drop(g);
+    merge();
     expect_counts(i, usize::MAX);
     vassert(slots_all_empty(), 42);
     cover(13);
@@ -272,11 +298,15 @@ pub extern "C" fn cs_final1() {
 pub extern "C" fn cs_final2() {
     vassert(slots_all_empty(), 40);
     let g = a().load();
+    merge();
     let i = check_payload(&g, 41);
     drop(g);
+    merge();
     let g = b().load();
+    merge();
     let j = check_payload(&g, 43);
     drop(g);
+    merge();
     expect_counts(i, j);
     cover(13);
 }
